@@ -111,7 +111,7 @@ pub fn check_on(c: &Case, ctx: &mut Ctx, ind: &mut Ind) -> Result<(), Failure> {
                 } else {
                     let m = mfi_ref(&bars, n, SEP);
                     let a = &bars[t - 2];
-                    if tp_dd(a).to_f64() != tp_dd(&bar).to_f64() {
+                    if may_flow(a, &bar) {
                         mfi_big = mfi_big.max((tp_dd(&bar).to_f64() * bar.v).abs());
                     }
                     let den = m.pmf.add(m.nmf).to_f64();
